@@ -105,6 +105,16 @@ impl Area for InternArea {
                             Ok(Err(_)) => {
                                 cx.count("intern.err");
                                 cx.nontrivial();
+                                // an error is only specified when the key space of the back end is used up
+                                let cap: u64 = match self.interners[i].backend.as_str() {
+                                    "rodeo_micro" => 255,
+                                    "rodeo_mini" => 65535,
+                                    _ => u32::MAX as u64 - 1,
+                                };
+                                let used = self.issued[i].len() as u64;
+                                if used < cap && !self.by_str[i].contains_key(&text) {
+                                    cx.fail("C10", format!("interning {} failed although only {} of {} keys are in use", hex(&text), used, cap));
+                                }
                                 "err".into()
                             }
                             Err(_) => {
